@@ -12,6 +12,7 @@ from dalimc.env import gear102 as G, device103 as D, memimage as MI
 from .c11 import lib_values
 
 ID = "C09"
+OPTIMISED_STRIDE = {"quick": 10, "thorough": 20}      # every k-th shard once more in an interpreter started with -O
 LEVEL = "model_checking"
 ENGINE = "E2"
 TECHNIQUE = "stateless exploration of the real memory-read generators against a spec model of IEC 62386-102 9.10 memory access: all declared values x images x bank shapes, faults and live-memory ticks deviation-bounded"
